@@ -30,7 +30,7 @@ Fixpoint next_u (p : para) (last : str) (ls : list str) : rres :=
         | Some (k, v) =>
             let key := trim_space_u k in
             let value := trim_space_u v in
-            if starts hash key then RErr
+            if starts hash key || starts dashc key then RErr
             else if mem key (values p) then RErr
             else next_u {| order := order p ++ [key]; values := values p ++ [(key, value)] |} key rest
         end
@@ -161,7 +161,7 @@ Proof.
     assert (Hk : uclean k) by (rewrite E2 in Hl; eapply uclean_prefix; eauto).
     assert (Hv : uclean v) by (rewrite E2 in Hl; apply uclean_suffix in Hl; eapply uclean_tl; eauto).
     rewrite (trim_space_u_clean k Hk), (trim_space_u_clean v Hv).
-    destruct (starts hash (trim_space k)); [reflexivity|]. destruct (mem (trim_space k) (values p)); [reflexivity|]. now apply IH.
+    destruct (starts hash (trim_space k) || starts dashc (trim_space k)); [reflexivity|]. destruct (mem (trim_space k) (values p)); [reflexivity|]. now apply IH.
 Qed.
 
 Lemma next_rest_sub : forall ls p last p' rest, next p last ls = RPara p' rest -> exists pre, ls = pre ++ rest.
@@ -175,7 +175,7 @@ Proof.
     destruct (starts hash l); [eapply G; eauto|].
     destruct (starts sp l || starts tab l).
     { destruct (order p); [destruct (str_eqb (trim_space l) []); [eapply G; eauto|discriminate]|eapply G; eauto]. }
-    destruct (cut_colon [] l) as [[k v]|]; [|discriminate]. destruct (starts hash (trim_space k)); [discriminate|].
+    destruct (cut_colon [] l) as [[k v]|]; [|discriminate]. destruct (starts hash (trim_space k) || starts dashc (trim_space k)); [discriminate|].
     destruct (mem (trim_space k) (values p)); [discriminate|]. eapply G; eauto.
 Qed.
 
